@@ -105,8 +105,18 @@ pub struct BuiltStack {
 
 pub fn gen_stack(rng: &mut Rng) -> BuiltStack {
     let nmetals = 2 + rng.usize(4);
-    let px = *rng.pick(&[24i64, 40, 60, 100]);
-    let py = *rng.pick(&[24i64, 40, 60, 100]);
+    let mut px = *rng.pick(&[24i64, 40, 60, 100]);
+    let mut py = *rng.pick(&[24i64, 40, 60, 100]);
+    // one stack in twenty-five has a primitive pitch of hundreds of millions of database units in one direction (picometre units, a
+    // wide block): track centres, cuts and vias then lie beyond 2^31, where every coordinate still has to be exact
+    if rng.chance(1, 25) {
+        if rng.bool() {
+            px *= 10_000_000;
+        } else {
+            py *= 10_000_000;
+        }
+    }
+    let (px, py) = (px, py);
     let mut layers = raw::Layers::default();
     let boundary = layers.add(raw::Layer::new(0, "boundary"));
     let first_horiz = rng.bool();
@@ -170,7 +180,7 @@ pub fn gen_stack(rng: &mut Rng) -> BuiltStack {
         let k = kinds.len();
         while rest > 0 {
             let j = if shared_rail && k > 2 { 1 + rng.usize(k - 2) } else { rng.usize(k) };
-            let add = (2 * rng.range(1, 10)).min(rest);
+            let add = if rest > 1000 { ((rest / 2) & !1).max(2) } else { (2 * rng.range(1, 10)).min(rest) };
             widths[j] += add;
             rest -= add;
         }
@@ -362,9 +372,13 @@ pub fn gen_cell(rng: &mut Rng, b: &BuiltStack, with_insts: bool) -> RCell {
         }
         v
     };
-    // cuts
-    for _ in 0..rng.usize(8) {
-        let l = rng.usize(metals);
+    // cuts: usually a handful; one cell in six is cut densely (up to ~50 requests), half of those with every cut on one layer and within
+    // its first period, so that per-layer / per-period containers see ten, sixteen, thirty entries
+    let dense = rng.chance(1, 6);
+    let focus: Option<usize> = if dense && rng.bool() { Some(rng.usize(metals)) } else { None };
+    let ncuts = if dense { 8 + rng.usize(44) } else { rng.usize(8) };
+    for _ in 0..ncuts {
+        let l = focus.unwrap_or_else(|| rng.usize(metals));
         let cl = if l == 0 { 1 } else if l + 1 >= r.metals.len() || rng.bool() { l - 1 } else { l + 1 };
         if cl >= r.metals.len() {
             continue;
@@ -374,7 +388,7 @@ pub fn gen_cell(rng: &mut Rng, b: &BuiltStack, with_insts: bool) -> RCell {
         if nt == 0 || nc == 0 {
             continue;
         }
-        let (t, c) = (rng.usize(nt), rng.usize(nc));
+        let (t, c) = (if focus.is_some() { rng.usize(nt.min(r.metals[l].nsig().max(1))) } else { rng.usize(nt) }, rng.usize(nc));
         let ctr = r.metals[cl].center(c);
         let (a, bnd) = (ctr - r.metals[l].cutsize / 2, ctr + r.metals[l].cutsize / 2);
         let span = cell.span_breadth(r, l).0;
@@ -726,7 +740,7 @@ impl Prop for C08 {
     }
     fn rule(&self) -> String {
         "Layer stacks: 2-5 metals alternating direction, primitive pitches from {24,40,60,100}, layer pitch 1-4 primitive pitches, 2-8 track entries (gap/signal/power/ground) of even widths incl. Repeat patterns, offsets (incl. half-rail negative offsets), overlaps (incl. rails shared by adjacent periods), flipping on/off, symmetric and asymmetric patterns, even cut and via sizes. \
-         Cells: rectangular outlines whose sides are multiples of every layer pitch, 1..all metals, 0-8 cuts at in-range crossings kept 1 unit clear of each other and of blockages, 0-8 assignments each on its own wire piece on both layers (TrackCross given in either orientation), 0-3 instances of lower-metal sub-cells (layouts with rectangular outlines, or abstract-only cells with a two-step outline of the same extent) on the pitch grid or off it, in all four reflections, abutting or apart, possibly all with the same instance name; net names carried verbatim (blank-edged, non-ASCII). \
+         Cells: rectangular outlines whose sides are multiples of every layer pitch, 1..all metals, 0-8 (one cell in six: up to ~50, possibly all in one period of one layer) cuts at in-range crossings kept 1 unit clear of each other and of blockages, 0-8 assignments each on its own wire piece on both layers (TrackCross given in either orientation), 0-3 instances of lower-metal sub-cells (layouts with rectangular outlines, or abstract-only cells with a two-step outline of the same extent) on the pitch grid or off it, in all four reflections, abutting or apart, possibly all with the same instance name; net names carried verbatim (blank-edged, non-ASCII). \
          Oracle (refs in props/c08.rs): the multiset of (layer, rectangle, net) of the compiled top cell, zero-area rectangles dropped, must equal: for every layer, period and track the maximal pieces of [0, span] minus cut intervals (centred on the flip-aware centre of the crossing track) minus instance extents along the track, at the track's flip-aware position and width; rails named VDD/VSS; the piece containing an assignment's crossing carries its net, no other signal piece carries a net; one via of the stack's size centred on each crossing. \
          Generator ill-formed adds ONE conflict to a well-formed cell. In the statement's domain (in-range crossings): a duplicated cut, an assignment on a cut, an assignment inside an instance blockage -> an error is fine, an accepted cell must still match the oracle exactly (one via per assignment; a net only on pieces that cover the crossing); a cut strictly inside a blockage -> only an error is allowed (nothing can tile without overlap). \
          Outside the domain (cut on a track or at a crossing beyond the outline, two different nets on one wire piece): outcome counted, not judged. \
